@@ -236,6 +236,27 @@ func main() {
 	})
 	R.Class(cfg+"/position pairs x {00,01,0f,10,f0,ff}^2", int64(len(pjs)*36))
 
+	// (3b) thorough: ALL 65536 values of two adjacent bytes at several positions (carries between neighbouring windows)
+	if th {
+		for _, pos := range []int{0, 7, 15, 16, 23, 30} {
+			pos := pos
+			mc.Par(65536, func(v int) {
+				s := new(big.Int).Lsh(big.NewInt(int64(v)), uint(8*pos))
+				if s.Cmp(ref.N) >= 0 {
+					return
+				}
+				want := refTab[pos][v&0xff].Add(refTab[pos+1][v>>8])
+				for p := 0; p < 3; p++ {
+					R.T(1)
+					if m := mc.Safe(func() string { return runBase(s, p, want) }); m != "" {
+						R.Mismatch(fmt.Sprintf("base/two adjacent bytes/%s/%s", paths[p], cfg), "base", m, mc.D{"s": mc.HexBig(s), "path": p, "path_name": paths[p]})
+					}
+				}
+			})
+			R.States(65536)
+		}
+		R.Class(cfg+"/all 65536 values of two adjacent bytes x 6 positions", 6*65536)
+	}
 	// (4) scalar alphabet, every path
 	sc := mc.ModAlphabet(ref.N, mc.ScalarConstants(), R.Seed, 8, false)
 	// nibble patterns
